@@ -711,6 +711,37 @@ pub mod option_sig_serde {
 	}
 }
 
+/// As `grin_core::libtx::secp_ser::option_seckey_serde`, refusing non-ASCII strings
+pub mod option_seckey_serde {
+	use super::from_hex;
+	use crate::grin_util::{secp, static_secp_instance};
+	use serde::de::Error;
+	use serde::{Deserialize, Deserializer};
+
+	pub use crate::grin_core::libtx::secp_ser::option_seckey_serde::serialize;
+
+	///
+	pub fn deserialize<'de, D>(deserializer: D) -> Result<Option<secp::key::SecretKey>, D::Error>
+	where
+		D: Deserializer<'de>,
+	{
+		let static_secp = static_secp_instance();
+		let static_secp = static_secp.lock();
+		Option::<String>::deserialize(deserializer).and_then(|res| match res {
+			Some(string) => from_hex(&string)
+				.map_err(Error::custom)
+				.and_then(|bytes: Vec<u8>| {
+					let mut b = [0u8; 32];
+					super::copy_prefix(&mut b, &bytes).map_err(Error::custom)?;
+					secp::key::SecretKey::from_slice(&static_secp, &b)
+						.map(Some)
+						.map_err(Error::custom)
+				}),
+			None => Ok(None),
+		})
+	}
+}
+
 // Test serialization methods of components that are being used
 #[cfg(test)]
 mod test {
